@@ -24,7 +24,7 @@ RULE = ("cases = regressor (NICKernelRegressor with random proper/improper prior
 ASSUMPTIONS = ["'proper prior' = kappa_0 > 0 and nu_0 > 2: for nu <= 2 the Student-t variance is mathematically infinite (DESIGN 5.6)",
                "kernel mass N is recomputed by the monitor with sklearn.metrics.pairwise_kernels"]
 REQUIRED_MONITORS = ["C15.predict-vs-distribution", "C15.sample_y-contract", "C15.fallback-contract"]
-REGS = ["nic", "nic_improper", "nw", "sk_lin", "sk_tree", "sk_svr", "sk_fail", "skn_gp", "skn_br", "skn_ard", "skn_fail"]
+REGS = ["nic", "nic_improper", "nw", "sk_lin", "sk_tree", "sk_svr", "sk_fail", "sk_lassocv", "skn_gp", "skn_br", "skn_ard", "skn_fail"]
 
 
 def gen_cases(tier, seed):
@@ -51,6 +51,11 @@ def _make(name, rng):
                                   metric_dict={"gamma": float(rng.choice([0.1, 1]))}, random_state=0)
     if name == "nw":
         return NadarayaWatsonRegressor(metric_dict={"gamma": float(rng.choice([0.1, 1, 10]))}, random_state=0)
+    if name == "sk_lassocv":
+        # cross-validated estimator: with fewer labelled samples than folds its fit fails half-way (attributes that satisfy
+        # scikit-learn's fitted check already exist) - the documented fall-back must answer
+        from sklearn.linear_model import LassoCV
+        return SklearnRegressor(LassoCV(cv=3), random_state=0)
     if name == "sk_fail":
         return SklearnRegressor(FailingRegressor(), random_state=0)
     if name == "skn_fail":
@@ -97,7 +102,7 @@ def run_case(desc):
 
     probabilistic = hasattr(reg, "predict_target_distribution")
     min_mass = None
-    fail_fit = name.endswith("_fail") or (lab.sum() == 0 and name.startswith("sk"))
+    fail_fit = name.endswith("_fail") or (lab.sum() == 0 and name.startswith("sk")) or (name == "sk_lassocv" and lab.sum() < 3)
     try:
         steps.begin()
         reg.fit(X, y)
@@ -154,7 +159,7 @@ def run_case(desc):
             if lab.sum() == 0:
                 if not np.allclose(mu, 0.0):
                     add("fallback-mean-not-zero-without-labels", "%r" % mu.tolist()[:4])
-            elif name.endswith("_fail"):
+            elif name.endswith("_fail") or (name == "sk_lassocv" and lab.sum() < 3):
                 if not np.allclose(mu, np.mean(yt[lab])):
                     add("fallback-mean-not-the-label-mean", "%r vs %r" % (mu.tolist()[:3], float(np.mean(yt[lab]))))
                 if probabilistic:
